@@ -93,6 +93,10 @@ def run_case(case, seed):
     extra = "    assert 1 == snapshot()\n" if c["cats"] == "create-fix" else ""
     src = ("from inline_snapshot import snapshot\n\n\ndef test_a():\n    value = %s\n    assert value == snapshot(%s)\n%s"
            % (val, old_arg, extra))
+    if rng.random() < 0.5:
+        # a multi-line string literal with lines that end in blanks / a tab: the formatter leaves them alone, the
+        # file is formatter-clean all the same
+        src = src.replace("def test_a():\n", 'def test_a():\n    text = """first line \nsecond\t\nthird\n"""\n', 1)
     src = fmt(src, opts)
     if not c["clean"]:
         src = src.replace("    value = ", "    value  =  ", 1).replace("def test_a():", "def test_a( ):", 1)
